@@ -323,6 +323,13 @@ class Session:
             wl = int("_maybe_pause_protocol" in src)
         except (AttributeError, OSError, TypeError):
             wl = 1
+        if self.kind in (K_SEND_ALL, K_SEND_ITER) and not wl:
+            # the proposed workaround (meta/fixes/C20_writelines_pause_workaround.diff) re-runs _maybe_pause_protocol()
+            # through set_write_buffer_limits(0) right after writelines(): same effect as a pausing writelines()
+            try:
+                wl = int("set_write_buffer_limits" in inspect.getsource(type(self.adapter).send_all_from_iterable))
+            except (AttributeError, OSError, TypeError):
+                wl = 0
         if self.kind in (K_DGRAM_EP, K_DGRAM_LISTENER):
             wl = 1      # no writelines on datagram transports
         return [high, low, wl]
@@ -702,7 +709,7 @@ def cases(tier, rng, escalate):
     for kind in kinds:
         for ntasks in (1, 2):
             depth = (5 if thorough else 4) if kind == K_FLOW else (4 if thorough else 3)
-            for acts in _bfs(kind, ntasks, depth, 20000 if thorough else (900 if kind == K_FLOW else 500)):
+            for acts in _bfs(kind, ntasks, depth, 4000 if thorough else (900 if kind == K_FLOW else 500)):
                 yield _case(kind, ntasks, acts, "exhaustive")
     for _ in range(8000 if thorough else 1200):
         kind = rng.choice(kinds)
